@@ -835,18 +835,31 @@ class _NP:
             return one(V[()])
         return _np.array([one(x) for x in _np.asarray(V)], dtype=int).view(SArr)
 
-    def unique(self, x, **k):
+    def unique(self, x, return_index=False, return_inverse=False, return_counts=False, **k):
         if k:
-            raise EngineError("np.unique with options")
+            raise EngineError(f"np.unique with options {sorted(k)}")
         a = _np.asarray(_to_arr(x)).reshape(-1)
         if a.dtype != object:
-            return _np.unique(a).view(SArr)
-        s = self.sort(a)
-        out = []
-        for e in s:
+            r = _np.unique(a, return_index=return_index, return_inverse=return_inverse, return_counts=return_counts)
+            return tuple(v.view(SArr) for v in r) if isinstance(r, tuple) else r.view(SArr)
+        order = self._order(list(a))          # stable: equal values keep their original order, so the first of a run is the first occurrence
+        out, first, counts, inverse = [], [], [], [0] * len(a)
+        for i in order:
+            e = a[i]
             if not out or not bool(out[-1] == e):
                 out.append(e)
-        return _to_arr(out)
+                first.append(i)
+                counts.append(0)
+            counts[-1] += 1
+            inverse[i] = len(out) - 1
+        res = [_to_arr(out)]
+        if return_index:
+            res.append(_np.array(first, dtype=int).view(SArr))
+        if return_inverse:
+            res.append(_np.array(inverse, dtype=int).view(SArr))
+        if return_counts:
+            res.append(_np.array(counts, dtype=int).view(SArr))
+        return tuple(res) if len(res) > 1 else res[0]
 
     def union1d(self, a, b):
         return self.unique(self.concatenate((_np.asarray(_to_arr(a)).reshape(-1), _np.asarray(_to_arr(b)).reshape(-1))))
